@@ -35,6 +35,8 @@ type NodeSpec struct {
 	Tags  map[string]TagSpec `json:"tags,omitempty"`
 	Cfg   map[string]TagSpec `json:"cfg,omitempty"` // CfgS/CfgI/CfgL -> value/prefix tag
 	Fails []string           `json:"fails,omitempty"`
+	// FailOnce: callbacks that fail on their first invocation only
+	FailOnce []string `json:"fail_once,omitempty"`
 }
 
 func (n *NodeSpec) DisplayName() string {
@@ -148,6 +150,12 @@ func Build(sc *Scenario, opt Options) *Run {
 			k.Fails = map[string]bool{}
 			for _, f := range ns.Fails {
 				k.Fails[f] = true
+			}
+		}
+		if len(ns.FailOnce) > 0 {
+			k.FailOnce = map[string]bool{}
+			for _, f := range ns.FailOnce {
+				k.FailOnce[f] = true
 			}
 		}
 		r.Nodes = append(r.Nodes, n)
